@@ -433,6 +433,31 @@ def batch_contract(fn, batch, kind, bare_row=True, lists=True):
     return probs
 
 
+def long_batch(fn, batch, kind, sizes=(1500, 2049, 5000)):
+    """A batch of any length: the probe rows repeated up to 1500 / 2049 / 5000 entries must repeat their answers element by element (a batch
+    processed in internal blocks must not drop, pad or reorder a remainder).  Returns a list of problems."""
+    import numpy as np
+    batch = np.asarray(batch, float)
+    try:
+        small = np.asarray(fn(batch.copy()))
+    except Exception:  # noqa: BLE001
+        return []
+    probs = []
+    for n in sizes:
+        reps = n // len(batch) + 1
+        big = np.tile(batch, (reps,) + (1,) * (batch.ndim - 1))[:n]
+        want = np.tile(small, reps)[:n]
+        try:
+            got = np.asarray(fn(big))
+        except Exception as e:  # noqa: BLE001
+            probs.append("a batch of %d entries raised %s" % (n, type(e).__name__)); break
+        ok = got.shape == want.shape and (np.array_equal(got, want) if kind == "b" else np.allclose(got, want, rtol=1e-12, atol=0, equal_nan=True))
+        if not ok:
+            where = "" if got.shape != want.shape else ", first differing entry %d" % int(np.flatnonzero(~np.isclose(got, want, rtol=1e-12, atol=0, equal_nan=True))[0])
+            probs.append("a batch of %d entries (the %d probe rows repeated) does not repeat their answers: result shape %s%s" % (n, len(batch), got.shape, where)); break
+    return probs
+
+
 def float32_probe(ctor, V):
     """The same coordinate values given as a float32 array and as a float64 array are the same solid: its measures are evaluated in double
     precision either way.  Returns a list of problems."""
